@@ -38,7 +38,34 @@ fn main() {
         i += 1;
     }
     tv::framework::install_panic_hook();
+    // Table initialisation takes milliseconds. If it does not finish (e.g. a table generator that
+    // loops forever) nothing can be checked: for C07 (the tables themselves) that is the violation,
+    // for every other property it is an infrastructure problem.
+    let init_done = std::sync::Arc::new(std::sync::atomic::AtomicBool::new(false));
+    {
+        let done = init_done.clone();
+        let id = id.clone();
+        std::thread::spawn(move || {
+            for _ in 0..1200 {
+                std::thread::sleep(std::time::Duration::from_millis(100));
+                if done.load(std::sync::atomic::Ordering::Relaxed) {
+                    return;
+                }
+            }
+            if id == "C07" {
+                let _ = std::fs::create_dir_all("/verif/replays");
+                let path = "/verif/replays/C07-init-does-not-terminate.json";
+                let _ = std::fs::write(path, "{\"property\": \"C07\", \"part\": \"tables\", \"case\": {\"Leapers\": {\"square\": 0}}, \"message\": \"table initialisation (chess::init) did not finish within 120 s\"}");
+                println!("table initialisation did not finish within 120 s");
+                println!("VIOLATION property=C07 replay={path}");
+                std::process::exit(1);
+            }
+            println!("INFRASTRUCTURE: engine initialisation did not finish within 120 s");
+            std::process::exit(2);
+        });
+    }
     tv::init();
+    init_done.store(true, std::sync::atomic::Ordering::Relaxed);
     if id == "selftest" {
         match tv::refchess::self_test(true) {
             Ok(()) => {
